@@ -1097,6 +1097,7 @@ class Unit:
         self.required = []
         self.lost_closures = {}   # fn -> closure selectors that matched nothing
         self.bare_closures = {}   # fn -> closures left without a contract (non-trivial bodies)
+        self.bare_loops = {}      # fn -> number of loops without a template invariant
         self.item_text = {}       # `kw Name` -> normalised text of every type definition the unit extracts
         self.strlit_patterns = {} # fn -> number of string-literal patterns (`"lit" =>`, `"lit" |`) in its text
         self.lost_ghost = {}   # fn -> ghost variables whose bookkeeping was attached to an optional anchor that is gone
@@ -1571,6 +1572,8 @@ class Unit:
                 self.rewrites.append("R35 %s:%d closure `%s %s` gets the contract its body states" % (rf.rel, toks[c[0]].line, L.norm(bars), L.norm(L.text(toks, c[2], c[3]))[:50]))
         bare = [ci for ci, c in enumerate(cls, 1) if ci not in fs.closures
                 and L.norm(L.text(toks, c[2], c[3])).replace(" ", "") not in ("()", "{}", "{()}")]
+        # loops that carry no template invariant: after such a loop Verus knows nothing about what it modified
+        self.bare_loops[qual] = sum(1 for li in range(1, len(loops) + 1) if li not in fs.loops)
         sgq = _sig(toks, bo + 1, be)
         self.strlit_patterns[qual] = sum(1 for x, j in enumerate(sgq[:-1]) if toks[j].kind == "str"
                                          and (toks[sgq[x + 1]].text == "|" or (toks[sgq[x + 1]].text == "=" and x + 2 < len(sgq) and toks[sgq[x + 2]].text == ">")))
